@@ -1,7 +1,302 @@
-"""C10 -- jobs added for the wave-11 seeds (two cooperating sites); see the docstring of each job"""
+"""C10 -- jobs added for the wave-11 seeds (two cooperating sites); see the docstring of each job
+
+The property's alignment clause is quantified "for every ABI's nop size".  The jobs of contracts/c09_10_11.py rewrite x86-64 modules
+only (nop size 1, where a count of bytes and a count of nops are the same number) and contracts/kernel_intervals.py always hands
+join_byte_intervals its nop.  The two jobs here vary what was fixed there:
+
+  C10/join-padding/every-abi-and-nop-source   (E)  the real join_byte_intervals on intervals that live in a module of EVERY registered
+        ABI, the nop coming from the argument / from a nop_encodings entry / from nowhere (then it is the module's ABI that knows it)
+  C10/alignment-after-rewrites/every-abi      (B)  apply() on modules of every registered ABI (MIPS32 in both byte orders): the code in
+        front of aligned blocks grows or shrinks by whole instructions
+
+Both oracles are the property's sentence, computed on the concrete numbers: after the rewrite / the join the bytes are the original
+blocks' bytes in order, and in front of every block with an alignment requirement the LEAST number of bytes that makes its address a
+multiple of the requirement, these being whole nops of the module's ABI after code and zeros after data, everything covered by blocks,
+the interval's size being the length of its contents.
+"""
+import itertools
+import logging
+
+import gtirb
+import z3
+
 from pyvc.run import BResult, Job  # noqa: F401
+
+I = gtirb.Module.ISA
+BO = gtirb.Module.ByteOrder
+
+# one ordinary (non-nop, non-zero, not a branch) instruction and a return sequence per ISA, as bytes in memory, from the architecture
+# manuals: x86 53 = push (e/r)bx, c3 = ret; A64 91000400 = add x0, x0, #1, d65f03c0 = ret (little-endian in memory); MIPS32 24420001 =
+# addiu $v0, $v0, 1, 03e00008 = jr $ra (+ delay slot nop)
+_WORD_INSN = {I.ARM64: 0x91000400, I.MIPS32: 0x24420001}
+_WORD_RET = {I.ARM64: [0xD65F03C0], I.MIPS32: [0x03E00008, 0]}
+
+
+def _configs():
+    """every registered ABI as (label, isa, file format, byte order or None); MIPS32 modules exist in both byte orders"""
+    from gtirb_rewriting import abi as ABIM
+    out = []
+    for isa, ff in sorted(ABIM._ABIS, key=lambda k: (k[0].name, k[1].name)):
+        if isa == I.MIPS32:
+            out.append(("%s/%s/big-endian" % (isa.name, ff.name), isa, ff, BO.Big))
+            out.append(("%s/%s/little-endian" % (isa.name, ff.name), isa, ff, BO.Little))
+        else:
+            out.append(("%s/%s" % (isa.name, ff.name), isa, ff, None))
+    return out
+
+
+def _insn(isa, order):
+    if isa in _WORD_INSN:
+        return _WORD_INSN[isa].to_bytes(4, "big" if order == BO.Big else "little")
+    return b"\x53"
+
+
+def _ret(isa, order):
+    if isa in _WORD_RET:
+        return b"".join(w.to_bytes(4, "big" if order == BO.Big else "little") for w in _WORD_RET[isa])
+    return b"\xc3"
+
+
+def _module(isa, ff, order):
+    from gtirb_test_helpers import create_test_module
+    ir, m = create_test_module(ff, isa)
+    if order is not None:
+        m.byte_order = order
+    return ir, m
+
+
+def expected_bytes(base, blocks, nop):
+    """THE ORACLE (the property's sentence on concrete numbers).  blocks: [(is_code, bytes, alignment or None)] in address order, the
+    first one at address `base`.  Returns (bytes of the whole run, [address of every block]) or None when some padding after code is not
+    a whole number of nops (then no rewrite can satisfy the sentence)."""
+    out, addrs, prev_code = b"", [], None
+    for is_code, data, al in blocks:
+        pad = (-(base + len(out))) % (al or 1)
+        if pad:
+            if prev_code:
+                if pad % len(nop):
+                    return None
+                out += nop * (pad // len(nop))
+            else:
+                out += bytes(pad)
+        addrs.append(base + len(out))
+        out += data
+        prev_code = is_code
+    return out, addrs
+
+
+def _uncovered(interval):
+    cov = bytearray(interval.size)
+    for b in interval.blocks:
+        for q in range(max(b.offset, 0), min(b.offset + b.size, interval.size)):
+            cov[q] = 1
+    return [q for q in range(interval.size) if not cov[q]]
+
+
+# ------------------------------------------------------------------------------------------------ E: join_byte_intervals
+_NOP_SOURCES = ["the nop argument", "a nop_encodings entry for the default mode", "both (the same bytes)", "neither: the module's ABI knows it"]
+
+
+def join_padding_harness(ctx):
+    """join_byte_intervals on intervals of a module of every registered ABI.  Case split (all explored): ABI x where the nop comes from
+    x code / data in front of the padding; per case a grid of geometries: destination of 1..3 instruction-sized units (+ an odd
+    2 bytes), 0 / 1 unit of it uninitialised, two appended intervals whose first blocks need alignments from (none, 8, 16, 32, 64)."""
+    from gtirb_test_helpers import add_text_section
+    from gtirb_rewriting import abi as ABIM
+    from gtirb_rewriting import intervalutils as IU
+    from .kernel_intervals import _unshimmed
+    cfgs = [c for c in _configs() if c[3] != BO.Little]          # the byte order plays no part in the join
+    label, isa, ff, order = cfgs[ctx.choose(len(cfgs), "abi")]
+    source = _NOP_SOURCES[ctx.choose(len(_NOP_SOURCES), "nop-source")]
+    code = bool(ctx.choose(2, "data-or-code-before-the-padding"))
+    DM = gtirb.CodeBlock.DecodeMode
+    bad = {"aligned": [], "least": [], "units": [], "bytes": [], "size": [], "covered": [], "refused": []}
+    ncases = 0
+    with _unshimmed():
+        nop = ABIM._ABIS[(isa, ff)].nop()
+        u = len(nop)
+        unit_a, unit_b = (bytes([0xA0 + k for k in range(4)]), bytes([0xB0 + k for k in range(4)]))
+        ir, m = _module(isa, ff, order)
+        sec, _ = add_text_section(m, address=0x1000)
+        for dunits, odd, tail, al1, al2 in itertools.product((1, 2, 3), (0, 2), (0, 1), (None, 8, 16, 64), (None, 16, 32)):
+            if odd and (tail or al2):
+                continue
+            for old in tuple(sec.byte_intervals):
+                old.section = None
+            dsize = dunits * 4 + odd
+            dinit = dsize - tail * 4
+            dbytes = bytes(range(1, dinit + 1))
+            d = gtirb.ByteInterval(contents=dbytes, size=dsize, address=0x1000, section=sec)
+            mk = gtirb.CodeBlock if code else gtirb.DataBlock
+            mk(offset=0, size=dsize, byte_interval=d)
+            a = gtirb.ByteInterval(contents=unit_a, size=4, section=sec)
+            ab = mk(offset=0, size=4, byte_interval=a)
+            b = gtirb.ByteInterval(contents=unit_b * 2, size=8, section=sec)
+            bb = mk(offset=0, size=8, byte_interval=b)
+            alignment = {k: v for k, v in ((ab, al1), (bb, al2)) if v}
+            kw = {"the nop argument": dict(nop=nop), "a nop_encodings entry for the default mode": dict(nop_encodings={DM.Default: nop}),
+                  "both (the same bytes)": dict(nop=nop, nop_encodings={DM.Default: nop}), "neither: the module's ABI knows it": {}}[source]
+            desc = "destination of %d bytes (%d initialised) + 4 bytes aligned %s + 8 bytes aligned %s" % (dsize, dinit, al1, al2)
+            ncases += 1
+            # an uninitialised tail of the destination is made explicit with the same kind of bytes as any other padding
+            fill = nop * (tail * 4 // u) if code else bytes(tail * 4)
+            want = expected_bytes(0x1000, [(code, dbytes + fill, None), (code, unit_a, al1), (code, unit_b * 2, al2)], nop)
+            try:
+                r = IU.join_byte_intervals([d, a, b], alignment=alignment, tables=[], **kw)
+                err = None
+            except IU.PaddingError as ex:
+                r, err = None, str(ex)
+            if want is None:
+                if err is None:
+                    bad["refused"].append("%s: joined to %s" % (desc, bytes(r.contents).hex()))
+                continue
+            if err is not None:
+                bad["bytes"].append("%s: PaddingError: %s" % (desc, err))
+                continue
+            wbytes, (_, wa, wb) = want
+            got = bytes(r.contents)
+            for blk, al in ((ab, al1), (bb, al2)):
+                if blk.byte_interval is not r or blk.address is None or blk.address % (al or 1):
+                    bad["aligned"].append("%s: block needing %s is at %s" % (desc, al, blk.address and hex(blk.address)))
+            if (ab.address, bb.address) != (wa, wb):
+                bad["least"].append("%s: blocks at %s, %s; the least padding puts them at %#x, %#x" % (desc, ab.address and hex(ab.address), bb.address and hex(bb.address), wa, wb))
+            # the bytes that are not the three intervals' own bytes, wherever they were put
+            pos, ok_order = 0, True
+            added = b""
+            for piece in (dbytes, unit_a, unit_b * 2):
+                k = got.find(piece, pos)
+                if k < 0:
+                    ok_order = False
+                    break
+                added += got[pos:k]
+                pos = k + len(piece)
+            added += got[pos:] if ok_order else b""
+            unit = nop if code else b"\x00"
+            if ok_order and (len(added) % len(unit) or added != unit * (len(added) // len(unit))):
+                bad["units"].append("%s: added bytes %s are not whole %s" % (desc, added.hex(), "nops " + nop.hex() if code else "zeros"))
+            if got != wbytes:
+                bad["bytes"].append("%s: contents %s, expected %s" % (desc, got.hex(), wbytes.hex()))
+            if r.size != len(got):
+                bad["size"].append("%s: size %d, %d bytes of contents" % (desc, r.size, len(got)))
+            un = _uncovered(r)
+            if un:
+                bad["covered"].append("%s: offsets %s are in no block" % (desc, un[:8]))
+    ctx.cover("enumerated")
+    tag = "%s, nop from %s, after %s, %d geometries: " % (label, source, "code" if code else "data", ncases)
+    P = lambda name, key: ctx.prove("join_byte_intervals/" + name, z3.BoolVal(not bad[key]), note=tag + "; ".join(bad[key][:2])[:400])  # noqa: E731
+    P("A/blocks-with-an-alignment-requirement-are-aligned-in-the-destination", "aligned")
+    P("A/no-more-padding-than-the-requirement-needs", "least")
+    P("A/the-added-bytes-are-whole-nops-of-the-modules-ABI-after-code-and-zeros-after-data", "units")
+    P("A/contents-are-the-intervals-bytes-in-order-with-that-padding-in-between", "bytes")
+    P("A/the-destinations-size-is-the-length-of-its-contents", "size")
+    P("A/every-byte-is-covered-by-a-block", "covered")
+    P("A/a-padding-that-is-not-a-whole-number-of-nops-is-refused-with-PaddingError", "refused")
+
+
+# ------------------------------------------------------------------------------------------------ B: apply() on every ABI
+def c10_every_abi(tier, seed):
+    def run():
+        import gtirb_functions
+        from gtirb_test_helpers import add_code_block, add_data_block, add_edge, add_function, add_proxy_block, add_text_section
+        from bounded import scen
+        from gtirb_rewriting import _auxdata
+        from gtirb_rewriting import abi as ABIM
+        from gtirb_rewriting import rewriting as RW
+        logging.getLogger("gtirb_rewriting").setLevel(logging.CRITICAL)
+        br = BResult()
+        br.bound = ("apply() on a module of every registered ABI (MIPS32 big- and little-endian), with and without function information: "
+                    "[code 16 bytes | code 16 bytes | code 16 bytes + return] with alignment requirements (16, 32) / (8, 16) / (none, 16) / (16, none) on the "
+                    "second and third block, and [code 16 | data 8 | code] with 8 on the last; the first block is edited: 1 / 2 / 3 nops inserted at its "
+                    "start, one in the middle, one at its end, its first or last instruction deleted, its first instruction replaced by two nops")
+        C_AL, C_LEAST, C_PAD, C_SIZE = ("C10/every-abi/alignment-requirements-hold-after-a-rewrite", "C10/every-abi/no-more-padding-than-the-requirement-needs",
+                                        "C10/every-abi/padding-is-whole-nops-of-the-ABI-after-code-zeros-after-data-covered-by-blocks",
+                                        "C10/every-abi/interval-size-is-the-length-of-its-contents")
+        br.clauses = [C_AL, C_LEAST, C_PAD, C_SIZE]
+        distinct = set()
+        chains = [("code", 16, 32), ("code", 8, 16), ("code", None, 16), ("code", 16, None), ("data", None, 8)]
+        edits = [("ins", 0, 1), ("ins", 0, 2), ("ins", 0, 3), ("ins", "mid", 1), ("ins", "end", 1), ("del", 0, 1), ("del", "last", 1), ("rep", 0, 2)]
+        for (label, isa, ff, order), funcs, (mid_kind, al1, al2), edit in itertools.product(_configs(), (False, True), chains, edits):
+            nop = ABIM._ABIS[(isa, ff)].nop()
+            ins, ret = _insn(isa, order), _ret(isa, order)
+            u = len(ins)
+            ir, m = _module(isa, ff, order)
+            _, bi = add_text_section(m, address=0x1000)
+            b0_bytes = ins * (16 // u)
+            b0 = add_code_block(bi, b0_bytes)
+            if mid_kind == "code":
+                b1_bytes = ins * (16 // u)
+                b1 = add_code_block(bi, b1_bytes)
+            else:
+                b1_bytes = bytes(range(0xD1, 0xD9))
+                b1 = add_data_block(bi, b1_bytes)
+            b2_bytes = ins * ((16 - len(ret)) // u) + ret
+            b2 = add_code_block(bi, b2_bytes)
+            if mid_kind == "code":
+                add_edge(ir.cfg, b0, b1, gtirb.EdgeType.Fallthrough)
+                add_edge(ir.cfg, b1, b2, gtirb.EdgeType.Fallthrough)
+            else:
+                add_edge(ir.cfg, b0, b2, gtirb.EdgeType.Branch)      # (the listing is not compared here: only the layout matters)
+            add_edge(ir.cfg, b2, add_proxy_block(m), gtirb.EdgeType.Return)
+            table = {blk: al for blk, al in ((b1, al1), (b2, al2)) if al}
+            _auxdata.alignment.set(m, dict(table))
+            assert all(blk.address % al == 0 for blk, al in table.items())         # the requirements hold before the rewrite
+            fl = []
+            if funcs:
+                add_function(m, "f", b0, {b1, b2} if mid_kind == "code" else {b2})
+                fl = gtirb_functions.Function.build_functions(m)
+            rc = RW.RewritingContext(m, fl)
+            op, where, n = edit
+            off = {0: 0, "mid": 8, "end": 16, "last": 16 - u}[where]
+            if op == "ins":
+                rc.insert_at(b0, off, scen.mkpatch("\n".join(["nop"] * n)))
+                new_b0 = b0_bytes[:off] + nop * n + b0_bytes[off:]
+            elif op == "del":
+                rc.delete_at(b0, off, u)
+                new_b0 = b0_bytes[:off] + b0_bytes[off + u:]
+            else:
+                rc.replace_at(b0, off, u, scen.mkpatch("\n".join(["nop"] * n)))
+                new_b0 = b0_bytes[:off] + nop * n + b0_bytes[off + u:]
+            br.cases += 1
+            distinct.add((label, funcs, mid_kind, al1, al2, edit))
+            desc = {"abi": label, "nop": nop.hex(), "function information": funcs, "layout": "code 16 | %s %d (alignment %s) | code 16 (alignment %s)" % (mid_kind, len(b1_bytes), al1, al2),
+                    "edit of the first block": {"ins": "%d nop(s) inserted at offset %d" % (n, off), "del": "the instruction at offset %d deleted" % off,
+                                                "rep": "the instruction at offset %d replaced by %d nops" % (off, n)}[op]}
+            try:
+                rc.apply()
+            except Exception as e:      # noqa
+                br.failures.append({"clause": C_AL, "witness": desc, "detail": "%s: %s" % (type(e).__name__, str(e)[:120])})
+                continue
+            tab = _auxdata.alignment.get(m) or {}
+            for blk, al in table.items():
+                if tab.get(blk) != al:
+                    br.failures.append({"clause": C_AL, "witness": desc, "detail": "the requirement %d of the block that was at %#x is no longer in the alignment table" % (al, 0x1010 if blk is b1 else 0x1020)})
+            for blk, al in tab.items():
+                if isinstance(blk, gtirb.ByteBlock) and blk.module is m and (blk.address is None or blk.address % al):
+                    br.failures.append({"clause": C_AL, "witness": desc, "detail": "block at %s needs alignment %d" % (blk.address is not None and hex(blk.address), al)})
+            want, (_, w1, w2) = expected_bytes(0x1000, [(True, new_b0, None), (mid_kind == "code", b1_bytes, al1), (True, b2_bytes, al2)], nop)
+            ivs = sorted(m.byte_intervals, key=lambda i: i.address)
+            got = b"".join(bytes(i.contents) for i in ivs)
+            if len(ivs) != 1 or ivs[0].address != 0x1000:
+                br.failures.append({"clause": C_PAD, "witness": desc, "detail": "the section's single byte interval at 0x1000 became %s" % [(hex(i.address), i.size) for i in ivs]})
+                continue
+            iv = ivs[0]
+            if iv.size != len(iv.contents):
+                br.failures.append({"clause": C_SIZE, "witness": desc, "detail": "size %d, %d bytes of contents" % (iv.size, len(iv.contents))})
+            if (b1.address, b2.address) != (w1, w2) and not any(blk.address is None or blk.address % al for blk, al in table.items()):
+                br.failures.append({"clause": C_LEAST, "witness": desc, "detail": "the blocks are at %#x, %#x; the least padding puts them at %#x, %#x" % (b1.address, b2.address, w1, w2)})
+            if got != want:
+                br.failures.append({"clause": C_PAD, "witness": desc, "detail": "bytes %s, expected %s" % (got.hex(), want.hex())})
+            if bytes(b1.contents) != b1_bytes or bytes(b2.contents) != b2_bytes:
+                br.failures.append({"clause": C_PAD, "witness": desc, "detail": "an unedited block's bytes changed: %s / %s" % (bytes(b1.contents).hex(), bytes(b2.contents).hex())})
+            un = _uncovered(iv)
+            if un:
+                br.failures.append({"clause": C_PAD, "witness": desc, "detail": "offsets %s of the interval are in no block" % un[:8]})
+        br.nontrivial = len(distinct)
+        return br
+    return run
 
 
 def jobs(tier="quick", seed=0):
-    return
-    yield
+    yield Job("C10/join-padding/every-abi-and-nop-source", join_padding_harness, kind="E",
+              func="gtirb_rewriting.intervalutils:join_byte_intervals (padding unit: every registered ABI x where the nop comes from)", expect_cover=("enumerated",))
+    yield Job("C10/alignment-after-rewrites/every-abi-bounded", c10_every_abi(tier, seed), kind="B", func="gtirb_rewriting.prepare:prepare_for_rewriting / intervalutils.join_byte_intervals (every ABI's nop size)")
